@@ -72,6 +72,8 @@ type Violation struct {
 }
 
 type Interp struct {
+	crossNext bool // the next decided query is an assertion verdict: diff it with the second solver
+	crossLeft int
 	race     raceState
 	curFrame *frame
 	curPos   token.Pos
@@ -170,6 +172,9 @@ type HarnessRun struct {
 	Sliced       int
 	CacheHits    int
 	budgetHit    bool
+	CrossChecked int // assertion verdicts re-decided by the second solver (cvc5)
+	CrossAgreed  int
+	CrossUnknown int
 }
 
 func newHarnessRun(name string) *HarnessRun {
@@ -289,6 +294,10 @@ func (in *Interp) check(extra ...*Term) (Result, map[int]uint64) {
 		}
 	}
 	r, vals, msg := in.solver.Check(as, want)
+	if in.crossNext {
+		in.crossNext = false
+		in.crossCheck(as, r)
+	}
 	if r == Sat || r == Unsat {
 		cv := map[int]uint64{}
 		for k, v := range vals {
